@@ -1,12 +1,89 @@
 //! C03: one real reader instance driven through a history of calls (plain, cached, reopened).
 use crate::bbi::{chrom_map, write_file, Ctx};
 use bigtools::utils::reopen::{Reopen, ReopenableFile};
-use bigtools::{BigWigRead, CachedBBIFileRead};
+use bigtools::{BigBedRead, BigWigRead, CachedBBIFileRead};
 use serde_json::{json, Value as J};
 
 enum Rd {
     Plain(BigWigRead<ReopenableFile>),
     Cached(BigWigRead<CachedBBIFileRead<ReopenableFile>>),
+}
+
+/// the same history over a bigBed reader (C04): interval = get_interval (entries <<start, end, id>>), zoom, badchrom, cached, reopen
+enum RdB {
+    Plain(BigBedRead<ReopenableFile>),
+    Cached(BigBedRead<CachedBBIFileRead<ReopenableFile>>),
+}
+
+fn run_case_bb(c: &J, ctx: &mut Ctx, path: &std::path::Path) -> J {
+    let n_items = c["items"].as_array().map(|a| a.len()).unwrap_or(0);
+    let rests: std::collections::HashMap<String, i64> = (1..=n_items).map(|i| (crate::bbi::rest_for(c, i), i as i64)).collect();
+    let zres: Option<u32> = c["opts"]["zooms"].as_array().and_then(|z| z.first()).and_then(|z| z.as_i64()).map(|z| ctx.pos_in(z));
+    let mut zlevel = vec![];
+    if let Some(res) = zres {
+        let mut fresh = match BigBedRead::open_file(path) { Ok(r) => r, Err(e) => return json!({"result": "openerr", "err": e.to_string()}) };
+        let chroms: Vec<(String, u32)> = fresh.chroms().iter().map(|c| (c.name.clone(), c.length)).collect();
+        for (name, len) in chroms {
+            match fresh.get_zoom_interval(&name, 0, len, res).map_err(|e| e.to_string()).and_then(|it| it.collect::<Result<Vec<_>, _>>().map_err(|e| e.to_string())) {
+                Ok(v) => for z in v { zlevel.push(json!([ctx.chrom_idx(&name), ctx.pos_out(z.start), ctx.pos_out(z.end)])); },
+                Err(e) => return json!({"result": "zoomerr", "err": e}),
+            }
+        }
+    }
+    let mut rd = match BigBedRead::open_file(path) { Ok(r) => RdB::Plain(r), Err(e) => return json!({"result": "openerr", "err": e.to_string()}) };
+    let mut answers = vec![];
+    for h in c["hist"].as_array().unwrap() {
+        let op = h["op"].as_str().unwrap();
+        match op {
+            "cached" => {
+                rd = match rd { RdB::Plain(r) => RdB::Cached(r.cached()), other => other };
+                answers.push(json!({"op": op, "c": 0, "s": 0, "e": 0, "iv": [], "vals": [], "err": 0}));
+            }
+            "reopen" => {
+                rd = match rd {
+                    RdB::Plain(r) => match r.reopen() { Ok(n) => RdB::Plain(n), Err(e) => return json!({"result": "reopenerr", "err": e.to_string()}) },
+                    RdB::Cached(r) => match r.reopen() { Ok(n) => RdB::Cached(n), Err(e) => return json!({"result": "reopenerr", "err": e.to_string()}) },
+                };
+                answers.push(json!({"op": op, "c": 0, "s": 0, "e": 0, "iv": [], "vals": [], "err": 0}));
+            }
+            "badchrom" => {
+                let k = answers.len() % 2;
+                let failed = match (&mut rd, k) {
+                    (RdB::Plain(r), 0) => r.get_interval("no_such_chromosome", 0, 5).is_err(),
+                    (RdB::Cached(r), 0) => r.get_interval("no_such_chromosome", 0, 5).is_err(),
+                    (RdB::Plain(r), _) => r.get_zoom_interval("no_such_chromosome", 0, 5, zres.unwrap_or(2)).is_err(),
+                    (RdB::Cached(r), _) => r.get_zoom_interval("no_such_chromosome", 0, 5, zres.unwrap_or(2)).is_err(),
+                };
+                answers.push(json!({"op": op, "c": 0, "s": 0, "e": 0, "iv": [], "vals": [], "err": if failed {1} else {0}}));
+            }
+            "interval" | "zoom" => {
+                let ci = h["c"].as_i64().unwrap();
+                let name = ctx.names[(ci - 1) as usize].clone();
+                let (s, e) = (h["s"].as_i64().unwrap(), h["e"].as_i64().unwrap());
+                let (ss, ee) = (ctx.pos_in(s), ctx.pos_in(e));
+                let mut iv = vec![];
+                let mut zr = vec![];
+                let mut err = 0;
+                if op == "interval" {
+                    let res: Result<Vec<bigtools::BedEntry>, String> = match &mut rd {
+                        RdB::Plain(r) => r.get_interval(&name, ss, ee).map_err(|e| e.to_string()).and_then(|it| it.collect::<Result<Vec<_>, _>>().map_err(|e| e.to_string())),
+                        RdB::Cached(r) => r.get_interval(&name, ss, ee).map_err(|e| e.to_string()).and_then(|it| it.collect::<Result<Vec<_>, _>>().map_err(|e| e.to_string())),
+                    };
+                    match res { Ok(v) => for x in v { iv.push(json!([ctx.pos_out(x.start), ctx.pos_out(x.end), *rests.get(&x.rest).unwrap_or(&0)])); }, Err(_) => err = 1 }
+                } else {
+                    let res = zres.unwrap_or(2);
+                    let got: Result<Vec<bigtools::ZoomRecord>, String> = match &mut rd {
+                        RdB::Plain(r) => r.get_zoom_interval(&name, ss, ee, res).map_err(|e| e.to_string()).and_then(|it| it.collect::<Result<Vec<_>, _>>().map_err(|e| e.to_string())),
+                        RdB::Cached(r) => r.get_zoom_interval(&name, ss, ee, res).map_err(|e| e.to_string()).and_then(|it| it.collect::<Result<Vec<_>, _>>().map_err(|e| e.to_string())),
+                    };
+                    match got { Ok(v) => for z in v { zr.push(json!([ctx.pos_out(z.start), ctx.pos_out(z.end)])); }, Err(_) => err = 1 }
+                }
+                answers.push(json!({"op": op, "c": ci, "s": s, "e": e, "iv": iv, "vals": [], "zr": zr, "err": err}));
+            }
+            _ => panic!("bad op for a bigBed reader"),
+        }
+    }
+    json!({"result": "ok", "answers": answers, "zlevel": zlevel, "unmapped": if ctx.unmapped {1} else {0}})
 }
 
 pub fn run_case(c: &J) -> J {
@@ -24,6 +101,9 @@ pub fn run_case(c: &J) -> J {
         use std::io::Write;
         let mut f = f;
         f.write_all(&sink.contents()).unwrap();
+    }
+    if c["kind"].as_str().unwrap_or("bw") == "bb" {
+        return run_case_bb(c, &mut ctx, &path);
     }
     let mut rd = match BigWigRead::open_file(&path) {
         Ok(r) => Rd::Plain(r),
